@@ -757,7 +757,7 @@ def make_sweep_plan(seed, idx):
     if rng.random() < 0.5:
         threads[-1].append({'k': rng.choice(SWEEP_KINDS[:6]), 'v': version, 'text': rng.choice(texts)})
     cfg = {'quantum': rng.choice([300, 1000, 3000]), 'warm': [], 'first': rng.randrange(nthreads), 'sequential': False,
-           'perm': None, 'rounds': 1, 'pgen_atomic': idx % 4 < 2, 'burst': 0, 'newline_p': rng.choice([0.2, 0.4, 0.6]), 'freeze_p': rng.choice([0.0, 0.1, 0.3]), 'attempts': 4, 'sweep': [kind, k % len(texts), version]}
+           'perm': None, 'rounds': 1, 'pgen_atomic': idx % 4 < 2, 'burst': 0, 'newline_p': rng.choice([0.2, 0.4, 0.6]), 'freeze_p': rng.choice([0.0, 0.1, 0.3]), 'attempts': 2, 'sweep': [kind, k % len(texts), version]}
     return {'sim': 'threadsim', 'seed': seed, 'config': cfg, 'threads': threads, 'switches': [], 'more': []}
 
 
